@@ -180,6 +180,8 @@ def Skeleton.pinned : Skeleton where
   msgCodecPlain := true
   linkReturnsOnlyFatalSlot := true
   recoverBlocksCanonical := false
+  panicSitesCanonical := true
+  ioWrappersNonBlocking := true
   errBranchesHandled := true
   locksBalanced := true
   ucNoWaiting := true
